@@ -92,6 +92,10 @@ func runChunk(jobs []job) []outcome {
 			}
 		}
 		next := len(rest)
+		if werr != nil {
+			// whatever the dying worker still managed to write about the job it was running is void
+			delete(done, begun)
+		}
 		for i, j := range rest {
 			if r, ok := done[j.ID]; ok {
 				outs = append(outs, outcome{Job: j, Res: r})
